@@ -224,7 +224,7 @@ func (g *gen) genPkg(pkg *Pkg, earlier []*Pkg) {
 		}
 		if len(elems) > 0 && g.chance("containerType", 35) {
 			el := elems[g.pick("containerElem", len(elems))]
-			ct := &TypeDecl{ID: g.p.NewID(), Pkg: pkg, Kind: KSliceOf, Name: fmt.Sprintf("Many%s%d", strings.ToUpper(el.Name[:1])+el.Name[1:], len(types)), Elem: &TypeRef{Type: el}}
+			ct := &TypeDecl{ID: g.p.NewID(), Pkg: pkg, Kind: KSliceOf, Name: fmt.Sprintf("Many%s_%d", strings.ToUpper(el.Name[:1])+el.Name[1:], len(types)), Elem: &TypeRef{Type: el}}
 			if g.chance("containerMap", 40) {
 				ct.Kind = KMapOf
 			}
